@@ -168,6 +168,15 @@ def check(run):
             i = p.index("fn main()")
             j = p.index("{", i) + 1
             progs.append(p[:j] + "\n    " + " ".join(rng.sample(INFER_SNIPPETS, 3)) + p[j:])
+        # binders whose type comes only from a DERIVED method (the query layer has to expand derives as the compiler does)
+        for k_ in range(4 if run.tier == "quick" else 40):
+            a_, b_ = rng.randint(0, 9), rng.randint(0, 9)
+            dv = rng.choice(["ToString, ToJson", "ToJson, ToString"])
+            progs.append(
+                "#[derive(%s)]\nstruct Pd { a: int32, b: string }\n#[derive(ToString)]\nenum Ed { Xd, Yd(int32) }\n#[derive(ToJson)]\nenum Jd { Kd(Pd), Ld }\n" % dv
+                + "fn main() {\n    let p = Pd { a: %d, b: \"s\" };\n    let s1 = p.to_string();\n    let j1 = p.to_json();\n    let e = Yd(%d);\n    let s2 = e.to_string();\n" % (a_, b_)
+                + "    let both = (s1, e.to_string());\n    let j2 = Kd(p).to_json();\n    let trip = (j1, Ld.to_json(), %d);\n    let n = string_len(s2) + string_len(j2);\n    ()\n}\n" % a_
+            )
         root = os.path.join(vlib.BUILD, "tmp", "c20")
         shutil.rmtree(root, ignore_errors=True)
         paths = []
